@@ -30,15 +30,14 @@ def run(ctx):
     ctx.rule("C02.guard", "A3 with modes: reads under S or X of the object's mutex, every non-const use under X, "
              "escapes only into handles locked on that mutex", floor=60)
     for cls in CLASSES:
-        if check_guarded_fields(ctx, "C02.guard", cls) == 0:
-            ctx.broken("no guarded-field access found in %s" % cls)
-    locker(ctx)
-    share(ctx)
-    common.handle_rules(ctx, "C02.handle", "gmlc::libguarded::shared_lock_handle", "shared")
-    const_pointer(ctx)
-    common.helper_summaries(ctx, "C02.helpers", ["try_lock_shared_handle", "try_lock_shared_handle_for",
-                                                  "try_lock_shared_handle_until"], "S")
-    common.witnesses(ctx, "C02.witness", ["C02"])
+        ctx.step(check_guarded_fields, ctx, "C02.guard", cls)
+    ctx.step(locker, ctx)
+    ctx.step(share, ctx)
+    ctx.step(common.handle_rules, ctx, "C02.handle", "gmlc::libguarded::shared_lock_handle", "shared")
+    ctx.step(const_pointer, ctx)
+    ctx.step(common.helper_summaries, ctx, "C02.helpers", ["try_lock_shared_handle", "try_lock_shared_handle_for",
+                                                           "try_lock_shared_handle_until"], "S")
+    ctx.step(common.witnesses, ctx, "C02.witness", ["C02"])
 
 
 def locker(ctx):
